@@ -118,6 +118,10 @@ static std::vector<uint32_t> gen_perm(uint32_t n, uint64_t x) {
 	return p;
 }
 
+// viaref=1 cases: DeleteBlock is called through its reference overload with a reference that lives INSIDE a
+// surviving block (the way NifFile::DeleteShape does: hdr.DeleteBlock(*ref)), when some block refers to the victim
+static bool g_viaRef = false;
+
 static void apply_op(NiHeader& hdr, std::vector<std::unique_ptr<NiObject>>& blocks, const std::string& op, bool real) {
 	char k = op[0];
 	std::string a = op.substr(1);
@@ -138,8 +142,27 @@ static void apply_op(NiHeader& hdr, std::vector<std::unique_ptr<NiObject>>& bloc
 		g_uids.fresh(b.get());
 		hdr.AddBlock(std::move(b));
 	}
-	else if (k == 'D')
-		hdr.DeleteBlock(parse_id(hdr, a));
+	else if (k == 'D') {
+		uint32_t id = parse_id(hdr, a);
+		NiRef* via = nullptr;
+		if (g_viaRef && id != NIF_NPOS && id < hdr.GetNumBlocks())
+			for (uint32_t i = 0; i < hdr.GetNumBlocks() && !via; ++i) {
+				auto b = hdr.GetBlock<NiObject>(i);
+				if (!b || i == id)
+					continue;
+				std::set<NiRef*> refs;
+				b->GetChildRefs(refs);
+				for (auto r : refs)
+					if (r->index == id) {
+						via = r;
+						break;
+					}
+			}
+		if (via)
+			hdr.DeleteBlock(*via);
+		else
+			hdr.DeleteBlock(id);
+	}
 	else if (k == 'R') {
 		auto p = a.find('=');
 		uint32_t id = parse_id(hdr, a.substr(0, p));
@@ -180,6 +203,7 @@ static int oracle_graph(int, char**) {
 		if (line.empty())
 			continue;
 		Case c = parse_case(line);
+		g_viaRef = c.geti("viaref") == 1;
 		g_uids = UidMap();
 		std::ostringstream out;
 		if (c.op == "seq") {
